@@ -9,11 +9,11 @@ from common import (Infra, NCPU, Result, Scratch, build_harness, cfg, match_find
 
 ALL = ["version", "verack", "ping", "pongOK", "pongBad", "protoconf", "reject", "addr", "getaddr", "inv", "invBlock",
        "tx", "block", "extTx", "extBlock", "extOther", "other", "hdrBSV", "hdrBCH", "hdrUnknown", "hdrEmpty",
-       "hdrBSVSecond", "hdrGood", "hdrBad", "hdrTxCount", "hdrBSVShort", "hdrGoodShort"]
+       "hdrBSVSecond", "hdrGood", "hdrBad", "hdrTxCount", "hdrBSVShort", "hdrGoodShort", "txAgain", "invSeen"]
 HDR = [m for m in ALL if m.startswith("hdr")]
 # messages a conformant, verified peer may send without the connection being closed by design
 CONFORMANT_READY = ["ping", "pongOK", "reject", "addr", "getaddr", "inv", "invBlock", "tx", "block", "extTx", "extBlock",
-                    "extOther", "other", "hdrGood", "hdrEmpty", "version", "verack", "reqblock", "blockWanted"]
+                    "extOther", "other", "hdrGood", "hdrEmpty", "version", "verack", "reqblock", "blockWanted", "txAgain", "invSeen"]
 HANDSHAKE = ["version", "verack", "hdrBSV"]
 
 EXH_INV = ["ReadyImpliesVerified", "VerifyOnlyDisconnects", "NeverReadyWhenVerifyOnly", "VerifyOnlyNeverWaits",
@@ -57,6 +57,8 @@ def plans(prop, tier):
         # repetition: the same few commands many times (queues and counters that fill up)
         P.append((False, True, HANDSHAKE, 16, ["version", "verack", "ping"], "sim", 60 if quick else 600))
         P.append((False, True, HANDSHAKE, 16, ["inv", "tx", "hdrGood", "ping", "addr"], "sim", 60 if quick else 600))
+        # the same transaction again and again: delivered, delivered once more, announced after it was received
+        P.append((False, True, HANDSHAKE, 5, ["tx", "txAgain", "invSeen"], "bfs", 0))
         # block requested / not requested: wrong and wanted blocks, classic and extended framing, other traffic
         P.append((False, True, HANDSHAKE + ["reqblock"], 3, ["block", "blockWanted", "extBlock", "extOther", "other", "tx",
                                                               "reqblock", "ping"], "bfs", 0))
